@@ -11,7 +11,7 @@
 import json
 import random
 
-from .. import core, progs, minify
+from .. import core, progs, minify, lexref
 from . import c01
 from pico8.lua import lua
 
@@ -180,6 +180,45 @@ def unit_traces(ctx, rnd):
                 'first': [[bytes(c['in']).decode('latin1'), bytes(c['out']).decode('latin1')] for c in traces[1]['calls'][:6]]})
 
 
+PROBES = [b':: top ::\nx+=1\nif (x<9) goto top\n', b'::top::\nx=1 goto top\n', b'::\ttop\t:: top=1 goto top\n', b'goto done\ndone=1\n:: done ::\n',
+          b'function a.b.c:d(e) return self.e, a.c, b end\n', b't={top=1,[top]=2,t=top} t.top=t.t\n', b'for i,v in pairs(t) do v.i=i end\n',
+          b'local function f(f, ...) return f(...) end\n', b'x=s:sub(1,2):len() s.sub=sub len=x\n', b'a.b["c"].d:e\"f\".g=a.d.e.g.c.b\n'.replace(b'\\"', b'"'),
+          b'::a:: ::b:: goto a goto b a=b\n', b'local a <const> = 1 b=a\n', b'a,b,c=c,b,a a.a.a=b.b.b\n']
+
+
+def occurrence_histories(ctx, cases, keepfiles):
+    """Every role an identifier can occur in (variable, field, method, parameter, label, goto target, table key): the
+    identifier occurrences of input and output, in order, as the tree under test tokenises them, judged as one renaming
+    history by TraceRename. Also for sources outside the reference dialect that the tree under test happens to accept."""
+    traces, meta = [], []
+    for name, src, _ in cases:
+        a = minify.ident_occurrences(src)
+        if not a:
+            ctx.out_of_domain += 1
+            continue
+        out, err = minify.run_minifier(src)
+        if out is None:
+            ctx.out_of_domain += 1          # not loadable / writer raises: C07 / C08 / C01's business
+            continue
+        b = minify.ident_occurrences(out)
+        if b is None or len(a) != len(b):
+            ctx.out_of_domain += 1          # token streams differ in shape: C01's business
+            continue
+        traces.append({'calls': [{'in': list(x), 'out': list(y)} for x, y in zip(a, b)], 'keepFile': [], 'keepAll': False, 'builtins': minify.BUILTINS})
+        meta.append((name, src, out))
+    if not traces:
+        return
+    v = ctx.validate('TraceRename', traces, workers=8)
+    for (name, src, out), t, vv in zip(meta, traces, v):
+        ctx.evaluations += 1
+        if vv[0] == 'ok':
+            ctx.nontrivial += 1
+        else:
+            c = t['calls'][vv[1] - 1]
+            ctx.violation('occurrences-%s/%s' % (vv[0], lexref.shape(bytes(c['in']))), 'identifier occurrences of %s rejected (%s) at occurrence %d: %r -> %r; %r -> %r' % (
+                name, vv[0], vv[1], bytes(c['in']), bytes(c['out']), src[:60], out[:60]), {'kind': 'minify', 'src': list(src), 'cfg': 'default'})
+
+
 def run(ctx):
     rnd = random.Random(ctx.seed)
     ctx.rule = ('(1) Renamer.tla exhaustively for call sequences over 7 names; (2) call histories of real name factories over thousands of distinct identifiers x keep '
@@ -194,6 +233,7 @@ def run(ctx):
     cases = minify.program_cases(ctx, rnd, sets, ('spaced', 'lines'))
     c01.judge(ctx, cases[::3], ('default', 'keepfile', 'keepall'), keepfiles, focus='C02')
     c01.judge(ctx, c01.fixture_cases(ctx, rnd), ('default', 'keepfile', 'keepall'), keepfiles, focus='C02')
+    occurrence_histories(ctx, [('probe%d' % k, s, []) for k, s in enumerate(PROBES)] + cases[1::3] + c01.fixture_cases(ctx, rnd), keepfiles)
     ctx.evaluations += len(cases[::3]) * 3
 
 
